@@ -73,9 +73,10 @@ def _double_exact(num, den, series, N):
     """the order conditions hold when every literal is read as the double Python computes with: the residual coefficients r_k =
     num_k - sum_j den_j * series_{k-j}, k <= 2N, are within the rounding of the literals (2^-52 relative per coefficient).
     A table retyped with 17 significant digits is the same program; a table with a wrong digit is not."""
-    sub = {"h": F.const(1), "s": F.const(0)}
     try:
-        num, den, series = (F._R(v).subs(sub) for v in (num, den, series))
+        num, den, series = (F._R(v) for v in (num, den, series))
+        if any(v.depends_on("h") or v.depends_on("s") or v.depends_on("2^s") for v in (num, den, series)):
+            return False
         if not (num.d.is_const() and den.d.is_const() and series.d.is_const()):
             return False
         cn = {k: (v.const_value() / num.d.const_value()) for k, v in F.coeffs_in(num.n, "x").items()}
@@ -93,6 +94,10 @@ def _double_exact(num, den, series, N):
 
 
 def _check_exp(ctx, tag, where, U, V, N):
+    cr = _find_crash((U, V))
+    if cr is not None:
+        ctx.fail(f"{tag}: (V+U)/(V-U) = exp(x) + O(x^{2*N+1}) exactly (diagonal Pade [{N}/{N}])", where, {"evaluation raises": cr.why})
+        return
     try:
         U, V = need(U, f"{tag} U"), need(V, f"{tag} V")
         resid = (V + U) - (V - U) * _exp_trunc(2 * N + 1)
@@ -106,19 +111,28 @@ def _check_exp(ctx, tag, where, U, V, N):
 
 
 def _check_int(ctx, tag, where, P, Q, N, which, scale):
-    """P/Q == scale * phi(x) + O(x^{2N+1})"""
+    """P/Q == scale * phi(x) + O(x^{2N+1}); scale is a power of h: P/scale and Q must be polynomials in x alone"""
+    nm = "sum x^k/(k+1)!" if which == 1 else "sum x^k/((k+2) k!)"
+    title = f"{tag}: P/Q = scale * {nm} + O(x^{2*N+1}) exactly ([{N}/{N}] approximant of the documented series)"
+    cr = _find_crash((P, Q))
+    if cr is not None:
+        ctx.fail(title, where, {"evaluation raises": cr.why})
+        return
     try:
         P, Q = need(P, f"{tag} P"), need(Q, f"{tag} Q")
         phi = _phi1_trunc(2 * N + 1) if which == 1 else _phi2_trunc(2 * N + 1)
-        resid = P - Q * scale * phi
+        P0 = P / scale
+        if P0.depends_on("h") or Q.depends_on("h"):
+            ctx.fail(title, where, {"why": f"P is not {scale!r} times a polynomial in A alone, or Q depends on h", "P/scale": repr(P0)[:200]})
+            return
+        resid = P0 - Q * phi
         lo = _low_order(resid, 2 * N + 1)
-        dP, dQ = _degree(P), _degree(Q)
+        dP, dQ = _degree(P0), _degree(Q)
     except Unsupported as e:
         ctx.error(f"{tag}: integral table", where, str(e))
         return
-    ok = lo == 2 * N + 1 or _double_exact(P, Q, F._R(scale) * phi, N)
-    nm = "sum x^k/(k+1)!" if which == 1 else "sum x^k/((k+2) k!)"
-    ctx.check(ok, f"{tag}: P/Q = scale * {nm} + O(x^{2*N+1}) exactly ([{N}/{N}] approximant of the documented series)", where,
+    ok = lo == 2 * N + 1 or _double_exact(P0, Q, phi, N)
+    ctx.check(ok, title, where,
               None if ok else {"first non-zero residual order": lo, "expected": 2 * N + 1, "deg P": dP, "deg Q": dQ})
 
 
@@ -149,7 +163,7 @@ def scalar_hook(extra=None, d=None, ell=None):
                 o.attrs[f"A{k}"] = A ** k
         if d is not None:
             for nm in DNAMES:
-                o.attrs[nm] = F.const(d)
+                o.attrs[nm] = F.const(d[nm.split("_")[0]] if isinstance(d, dict) else d)
         return None
 
     def hook(it, name, pos, kw, node):
@@ -169,10 +183,8 @@ def scalar_hook(extra=None, d=None, ell=None):
             o, N = pos[0], int(pos[1][4:])
             return Native("scipy:" + pos[1], lambda it_, p_, k_, nd_: _scipy_uv(N, need(o.attrs.get("A"), "helper.A")))
         if name == "mf._ell" and n == 2:
-            if ell is not None and I.is_const(pos[1]):
-                v = ell.get(int(I.cval(pos[1])))
-                if v is not None:
-                    return F.const(v)
+            if ell is not None and I.is_const(pos[1]) and I.cval(pos[1]) != 13:
+                return F.const(ell.get(int(I.cval(pos[1])), 0))
             return NotImplemented
         if name == "mf._solve_P_Q" and n >= 2:
             U, V = to_rat(pos[0]), to_rat(pos[1])
@@ -244,12 +256,27 @@ def _has_unknown(v):
     return False
 
 
+def _find_crash(v):
+    if I.is_crash(v):
+        return v
+    if isinstance(v, (tuple, list)):
+        for x in v:
+            c = _find_crash(x)
+            if c is not None:
+                return c
+    return None
+
+
 def verdict(ctx, ok, title, where, detail=None, values=()):
     """ok / fail; but when the obligation does not hold *and* one of the values it is about could not be evaluated, that is an analysis
     error (exit 2), not a violation"""
     if ok:
         ctx.ok(title, where)
         return True
+    cr = _find_crash(values)
+    if cr is not None:
+        ctx.fail(title, where, {"evaluation raises": cr.why, "detail": detail})
+        return False
     if any(_has_unknown(v) for v in values):
         bad = next(v for v in values if _has_unknown(v))
         ctx.error(title, where, f"could not evaluate: {bad!r}"[:400])
@@ -279,7 +306,7 @@ def r1_pade_tables(ctx):
         raise AnchorError(f"{cls}: constructor")
     # the two cached powers the class adds to scipy's helper
     for k in (3, 5):
-        v = it._getattr(H, f"A{k}", cnode)
+        v = it.attr(H, f"A{k}", cnode)
         ok = isinstance(v, F.Rat) and v.equals(x ** k)
         verdict(ctx, ok, f"{cls}.A{k} is the {k}-th power of A", cnode, repr(v), [v])
     for N, name in ((3, "pade3_i"), (5, "pade5_i"), (7, "pade7_i"), (9, "pade9_i")):
@@ -388,7 +415,8 @@ def _double_rounding(ctx):
 class Run:
     """one evaluation of expmint / _expm_SS in a regime: every norm estimate equals t, _ell is 0 below order 13"""
 
-    def __init__(self, ctx, q, t, geti2=True, triangular=False, sparse=False, follow_geti2=False):
+    def __init__(self, ctx, q, t, geti2=True, triangular=False, sparse=False, follow_geti2=False, ell=None):
+        """t: the value of every norm estimate, or {'d4': .., 'd6': .., 'd8': .., 'd10': ..}; ell: {order: value of mf._ell}, default 0"""
         self.q = q
         x, h = F.sym("x"), F.sym("h")
         self.x, self.h = x, h
@@ -399,7 +427,7 @@ class Run:
             return NotImplemented
 
         orc = call_oracle({"isspmatrix": sparse, "isinstance": False, "mf._is_upper_triangular": triangular, "np.allclose": True})
-        self.it = it = Interp(ctx, EXPM, hook=scalar_hook(extra, d=t, ell={3: 0, 5: 0, 7: 0, 9: 0}), oracle=orc)
+        self.it = it = Interp(ctx, EXPM, hook=scalar_hook(extra, d=t, ell=dict(ell or {})), oracle=orc)
         if q == "expmint":
             self.ret = it.call("expmint", [x, h, geti2])
             self.A = x * h
@@ -415,9 +443,23 @@ class Run:
 
     def table_call(self):
         """the call whose result went into the exp solve: the Pade table method"""
+        if self.pq is None or len(self.pq.pos) < 2:
+            return None
+        a, b = self.pq.pos[0], self.pq.pos[1]
         cands = [c for c in self.it.calls if isinstance(c.result, tuple) and len(c.result) in (2, 4) and c.name != self.q
-                 and self.pq is not None and I.same_value(c.result[0], self.pq.pos[0]) and I.same_value(c.result[1], self.pq.pos[1])]
+                 and ((I.same_value(c.result[0], a) and I.same_value(c.result[1], b))
+                      or (I.same_value(c.result[0], b) and I.same_value(c.result[1], a)))]
         return cands[0] if cands else None          # the outermost one
+
+    def ell_calls(self):
+        """(matrix, order) of every mf._ell consulted before the exp solve"""
+        out = []
+        for c in self.it.calls:
+            if self.pq is not None and c.seq > self.pq.seq:
+                break
+            if c.name == "mf._ell" and len(c.pos) == 2:
+                out.append((c.pos[0], c.pos[1], c.node))
+        return out
 
 
 def r2_thresholds(ctx):
@@ -441,12 +483,32 @@ def r2_thresholds(ctx):
             ok = hi.order > m
             ctx.check(ok, f"{q}: a norm estimate just above theta_{m} does not use the order-{m} table", hi.pq.node,
                       None if ok else {"order used": hi.order, "theta": str(THETA[m])})
+            ells = lo.ell_calls()
+            blocked = Run(ctx, q, THETA[m] * (1 - EPS), ell={m: 1})
+            ok = bool(ells) and I.same_value(ells[-1][0], lo.A) and I.same_value(ells[-1][1], F.const(m)) \
+                and blocked.order is not None and blocked.order > m
+            verdict(ctx, ok, f"{q}: the order-{m} route is admitted by _ell(A, {m}) == 0 (a non-zero value sends the matrix on to a higher order)",
+                    ells[-1][2] if ells else where, {"last _ell consulted": repr(ells[-1][:2])[:200] if ells else None,
+                                                     "order used when it is 1": blocked.order}, [e_[:2] for e_ in ells[-1:]])
             if q == "expmint":
                 g = _last(lo.it.calls, "_geti2")
                 ga = g.ordered() if g is not None else []
                 got = ga[4] if len(ga) >= 5 else None
                 ok = got is not None and I.is_const(got) and I.cval(got) == m
                 verdict(ctx, ok, f"{q}: the order-{m} route tells _geti2 pade={m}", g.node if g is not None else where, repr(got), [got])
+        # every route is bounded by both of its norm estimates (eta = max of the pair): d_k ~ ||A^k||^(1/k)
+        small = THETA[3] * (1 - EPS)
+        mid = THETA[7] * (1 - EPS)
+        for label, dvals, want_order in (
+                ("||A^4||^(1/4) large, the others tiny: orders 3 and 5 (bounded by d4, d6) are not used, order 7 (d6, d8) is",
+                 {"d4": Fraction(10), "d6": small, "d8": small, "d10": small}, 7),
+                ("||A^6||^(1/6) large, the others tiny: no order up to 9 is used (each is bounded by d6)",
+                 {"d4": small, "d6": Fraction(10), "d8": small, "d10": small}, 13),
+                ("||A^8||^(1/8) large, d4 and d6 just below theta_7: orders 7 and 9 (bounded by d6, d8) are not used",
+                 {"d4": mid, "d6": mid, "d8": Fraction(10), "d10": mid}, 13)):
+            r = Run(ctx, q, dvals)
+            verdict(ctx, r.order == want_order, f"{q}: {label}", r.pq.node if r.pq is not None else fn,
+                    {"order used": r.order, "expected": want_order}, [r.ret])
         # order 13: scaling power
         r = Run(ctx, q, Fraction(10))
         tc = r.table_call()
@@ -554,20 +616,26 @@ def r3_squaring(ctx):
         ok = trip is not None and I.same_value(trip, s)
         verdict(ctx, ok, "expmint: the squaring loop runs s times, s being the scaling power given to the order-13 table", lp.node,
                 {"trip count": repr(trip)[:200], "s": repr(s)[:200]}, [trip, s])
-        nE, nI = (I.sym_name(v) for v in r.ret[:2])
         suffix = f"@out{lp.k}"
-        if not (nE and nI and nE.endswith(suffix) and nI.endswith(suffix)):
+        names = [I.sym_name(v) if isinstance(v, F.Rat) else None for v in r.ret[:2]]
+        carried = [n_[:-len(suffix)] if n_ and n_.endswith(suffix) else None for n_ in names]
+        if any(_has_unknown(v) for v in r.ret[:2]) or (carried[0] is None and carried[1] is None):
             ctx.error("expmint: squaring loop", lp.node, f"E, I returned are not the loop's results: {r.ret[:2]!r}"[:300])
         else:
-            nE, nI = nE[:-len(suffix)], nI[:-len(suffix)]
-            Ein, Iin = lp.in_sym(nE), lp.in_sym(nI)
-            got = lp.out.get(nI)
+            # a returned value the loop does not carry is one the loop leaves as it was
+            nE, nI = carried
+            Ein = lp.in_sym(nE) if nE else r.ret[0]
+            Iin = lp.in_sym(nI) if nI else r.ret[1]
+            got = lp.out.get(nI) if nI else Iin
             ok = isinstance(got, F.Rat) and got.equals(Iin + Iin * Ein)
             verdict(ctx, ok, "expmint: integral doubling uses E before it is squared: I <- I + I.E  (int_0^2h = int_0^h + e^{Ah} int_0^h)", lp.node,
                     repr(got)[:300], [got])
-            got = lp.out.get(nE)
+            got = lp.out.get(nE) if nE else Ein
             ok = isinstance(got, F.Rat) and got.equals(Ein * Ein)
             verdict(ctx, ok, "expmint: E <- E.E", lp.node, repr(got)[:300], [got])
+            if nE is None or nI is None:
+                lp.init.setdefault(nE, r.ret[0])
+                lp.init.setdefault(nI, r.ret[1])
             U, V, P, Q = (to_rat(t) for t in tc.result)
             g = _last(r.it.calls, "_geti2")
             ga = g.ordered() if g is not None else []
@@ -614,8 +682,17 @@ def r3_squaring(ctx):
         ok = isinstance(ret, F.Rat) and ret.equals(P / Q) and leaf is not None and leaf.name == leafname
         verdict(ctx, ok, f"_solve_P_Q_2 solves Q X = P ({label} matrices: {leafname}(Q, P))", leaf.node if leaf is not None else sp,
                 repr(ret)[:200], [ret])
-    # _expm_SS: squaring of the order-13 result
+    # _expm_SS: orders 3..9 return solve(V-U, V+U) of the table; squaring of the order-13 result
     fn = ctx.src.func(EXPM, "_expm_SS")
+    for m in (3, 5, 7, 9):
+        r = Run(ctx, "_expm_SS", THETA[m] * (1 - EPS))
+        tc = r.table_call()
+        if tc is None:
+            ctx.error(f"_expm_SS: order-{m} route", fn, f"could not evaluate: {r.ret!r}"[:300])
+            continue
+        U, V = (to_rat(t) for t in tc.result)
+        ok = I.same_value(r.ret, (V + U) / (V - U))
+        verdict(ctx, ok, f"_expm_SS (order {m}): returns solve(V-U, V+U)", tc.node, repr(r.ret)[:300], [r.ret, U, V])
     r = Run(ctx, "_expm_SS", Fraction(10))
     tc = r.table_call()
     if len(r.it.loops) != 1 or tc is None:
@@ -708,15 +785,31 @@ def r4_siblings(ctx):
                     continue
                 env = {"I": Isym, "I2": I2sym, "h": h, "B": B, "E": Esym}
                 # all of E, I, I2, P, Q have the shape of A: the column count may be read from any of them
-                shaped = ("E", "I", "I2", want[order][0], want[order][1]) if half else ("E",)
+                shaped = (("E", "I", "I2", want[order][0]) + ((want[order][1],) if order == 1 else ())) if half else ("E",)
                 wps = [it.expr(shape.format(want[order][0], sh), env) for sh in shaped]
                 wqs = [it.expr(shape.format(want[order][1], sh), env) if order == 1 else F.const(0) for sh in shaped]
                 wp, wq = wps[0], wqs[0]
-                ok = I.same_value(ret[0], Esym) and any(I.same_value(ret[1], v) for v in wps) and any(I.same_value(ret[2], v) for v in wqs)
+                src = _last(it.calls, "expmint", "expmint_pow")
+                sa = src.ordered() if src is not None else []
+                ok = I.same_value(ret[0], Esym) and any(I.same_value(ret[1], v) for v in wps) and any(I.same_value(ret[2], v) for v in wqs) \
+                    and len(sa) >= 2 and I.same_value(sa[0], A) and I.same_value(sa[1], h)
                 what = {"B is None, half false": "", "B given": " times B from the right", "B is None, half true": ", first half of the columns"}[label]
                 verdict(ctx, ok, f"{q}(order={order}; {label}): E, P = {'I2/h' if order else 'I'}{what}, Q = {('I - I2/h' + what) if order else '0'} "
                                  "(first-order hold: int e^{A(h-t)} (1-t/h), int e^{A(h-t)} t/h)", fn,
-                        {"P": repr(ret[1])[:200], "Q": repr(ret[2])[:200], "want P": repr(wp)[:200], "want Q": repr(wq)[:200]}, list(ret))
+                        {"P": repr(ret[1])[:200], "Q": repr(ret[2])[:200], "want P": repr(wp)[:200], "want Q": repr(wq)[:200],
+                         "E, I[, I2] computed from": repr(sa[:2])[:120]}, list(ret) + sa[:2])
+    # the four variants are interchangeable: same parameters, same defaults
+    sigs = {}
+    for q in ("getEPQ", "getEPQ1", "getEPQ2", "getEPQ_pow"):
+        f = ctx.src.func(EXPM, q)
+        it = Interp(ctx, EXPM)
+        a_ = f.args
+        names = [p_.arg for p_ in a_.posonlyargs + a_.args]
+        dv = [it.expr(ast.unparse(d_)) for d_ in a_.defaults]
+        sigs[q] = (tuple(names), tuple(I.key_of(v) for v in dv), bool(a_.vararg or a_.kwarg or a_.kwonlyargs))
+    ok = len(set(sigs.values())) == 1
+    ctx.check(ok, "getEPQ, getEPQ1, getEPQ2, getEPQ_pow take the same parameters with the same defaults", ctx.src.func(EXPM, "getEPQ"),
+              None if ok else {k: repr(v)[:160] for k, v in sigs.items()})
     # expmint_pow: the power series
     K = 5
     fn = ctx.src.func(EXPM, "expmint_pow")
@@ -904,98 +997,108 @@ def r6_augmented(ctx):
     of which contains E, P, Q; it can hold them (floating dtype whatever the dtypes of A and h); E, P, Q are the blocks documented"""
     fn = ctx.src.func(EXPM, "getEPQ2")
     A, h, B = F.sym("A"), F.sym("h"), F.sym("B")
-    for order in (0, 1):
-        bufs = {}
+    regimes = (("B given", B, False, "B.shape[1]", None), ("B is None", None, False, "n", "np.eye(n)"),
+               ("B is None, half", None, True, "n // 2", "np.eye(n // 2)"))
+    for rlabel, Bval, half, i_txt, B_txt in regimes:
+        for order in (0, 1):
+            bufs = {}
 
-        def extra(it, name, pos, kw, node, bufs=bufs):
-            if name in ("np.zeros", "np.empty") and pos:
-                s = F.sym(f"buffer{len(bufs) + 1}")
-                bufs[I.sym_name(s)] = (pos[0], pos[1] if len(pos) > 1 else kw.get("dtype"), node)
-                return s
-            if name in ("np.eye", "np.identity") and len(pos) == 1:
-                return F.fn("eye", to_rat(pos[0]))
-            if name == "_expm_SS":
-                return F.sym("EM")
-            return NotImplemented
+            def extra(it, name, pos, kw, node, bufs=bufs):
+                if name in ("np.zeros", "np.empty") and pos:
+                    s = F.sym(f"buffer{len(bufs) + 1}")
+                    bufs[I.sym_name(s)] = (pos[0], pos[1] if len(pos) > 1 else kw.get("dtype"), node)
+                    return s
+                if name in ("np.eye", "np.identity") and len(pos) == 1:
+                    return F.fn("eye", to_rat(pos[0]))
+                if name == "getattr" and pos[1] == "shape" and isinstance(pos[0], F.Rat):
+                    p_ = fn_parts(pos[0])
+                    if p_ is not None and p_[0] == "eye":            # np.eye(k).shape is (k, k)
+                        return (p_[1][0], p_[1][0])
+                    return NotImplemented
+                if name == "_expm_SS":
+                    return F.sym("EM")
+                return NotImplemented
 
-        it = Interp(ctx, EXPM, hook=_ordered_hook(extra), erase=False)
-        ret = it.call("getEPQ2", [A, h, F.const(order), B, False])
-        call = _last(it.calls, "_expm_SS")
-        tag = f"getEPQ2(order={order})"
-        ca = call.ordered() if call is not None else []
-        if not isinstance(ret, tuple) or len(ret) != 3 or len(ca) < 3:
-            ctx.error(f"{tag}: could not evaluate", fn, repr(ret)[:300])
-            continue
-        M = ca[0]
-        mname = I.sym_name(M)
-        if mname not in bufs:
-            ctx.error(f"{tag}: augmented matrix", call.node, f"first argument of _expm_SS is not a freshly allocated array: {M!r}"[:200])
-            continue
-        shape, dtype, znode = bufs[mname]
-        # dtype
-        if dtype is None:
-            ctx.ok(f"{tag}: the augmented matrix is allocated with the default (float64) dtype", znode)
-        else:
-            dn = dtype.name if isinstance(dtype, Ref) else (repr(dtype) if isinstance(dtype, str) else None)
-            if dn in FLOAT_DTYPES:
-                ctx.ok(f"{tag}: the augmented matrix is allocated as a floating array ({dn}), so it holds A h and B h whatever the dtypes of A, B, h", znode)
+            it = Interp(ctx, EXPM, hook=_ordered_hook(extra), erase=False)
+            ret = it.call("getEPQ2", [A, h, F.const(order), Bval, half])
+            call = _last(it.calls, "_expm_SS")
+            tag = f"getEPQ2(order={order}; {rlabel})"
+            ca = call.ordered() if call is not None else []
+            if not isinstance(ret, tuple) or len(ret) != 3 or len(ca) < 3:
+                ctx.error(f"{tag}: could not evaluate", fn, repr(ret)[:300])
+                continue
+            M = ca[0]
+            mname = I.sym_name(M)
+            if mname not in bufs:
+                ctx.error(f"{tag}: augmented matrix", call.node, f"first argument of _expm_SS is not a freshly allocated array: {M!r}"[:200])
+                continue
+            shape, dtype, znode = bufs[mname]
+            # dtype
+            if dtype is None:
+                ctx.ok(f"{tag}: the augmented matrix is allocated with the default (float64) dtype", znode)
             else:
-                dv = to_rat(dtype)
-                inherits = not is_unknown(dv) and I.atoms_named(dv, "attr:dtype")
-                p = fn_parts(dv) if isinstance(dv, F.Rat) else None
-                promoted = p is not None and p[0] in ("call:np.result_type", "call:np.promote_types", "call:np.common_type") \
-                    and (p[0].endswith("common_type") or any(isinstance(x, F.Rat) and I.sym_name(x) in ("float", "np.float64", "complex") for x in p[1]))
-                if promoted:
-                    ctx.ok(f"{tag}: the augmented matrix is allocated with a dtype promoted with float", znode)
-                elif inherits:
-                    ctx.fail(f"{tag}: the augmented matrix is allocated as a floating array, so it holds A h and B h whatever the dtypes of A, B, h", znode,
-                             {"dtype": repr(dv)[:200], "why": "the dtype is inherited from an input: integer A and h give an integer array and B h is truncated when stored"})
+                dn = dtype.name if isinstance(dtype, Ref) else (repr(dtype) if isinstance(dtype, str) else None)
+                if dn in FLOAT_DTYPES:
+                    ctx.ok(f"{tag}: the augmented matrix is allocated as a floating array ({dn}), so it holds A h and B h whatever the dtypes of A, B, h", znode)
                 else:
-                    ctx.error(f"{tag}: dtype of the augmented matrix", znode, f"cannot decide whether {dv!r} is a floating dtype"[:200])
-        # blocks
-        env = {"A": A, "h": h, "B": B, "M": M, "EM": F.sym("EM"), "n": None, "i": None, "r": None}
-        env["n"] = it.expr("A.shape[0]", env)
-        env["i"] = it.expr("B.shape[1]", env)
-        env["r"] = it.expr("B.shape[0]", env)
-        want_shape = it.expr("(n + 2 * i, n + 2 * i)" if order == 1 else "(n + i, n + i)", env)
-        ok = I.same_value(shape, want_shape)
-        verdict(ctx, ok, f"{tag}: the augmented matrix is square of size n + {'2 i' if order else 'i'}", znode, repr(shape)[:200], [shape])
-        blocks = [("M[:n, :n]", "A * h", "A h in the leading block")]
-        if order == 1:
-            blocks += [("M[:r, n:n + i]", "B * h", "B h to the right of it"), ("M[n:n + i, n + i:]", "np.eye(i)", "the identity coupling u and du")]
-        else:
-            blocks += [("M[:r, n:]", "B * h", "B h to the right of it")]
-        cells = [(ix, v, st) for base, ix, v, st, aug in it.cells if I.same_value(base, M) and not aug]
-        augs = [st for base, ix, v, st, aug in it.cells if I.same_value(base, M) and aug]
-        for where_txt, val_txt, what in blocks:
-            wi = fn_parts(it.expr(where_txt, env))[1][1]
-            wv = it.expr(val_txt, env)
-            hit = [c_ for c_ in cells if I.same_value(c_[0], wi)]
-            ok = len(hit) == 1 and I.same_value(hit[0][1], wv)
-            verdict(ctx, ok, f"{tag}: {what} ({where_txt} = {val_txt})", hit[0][2] if hit else znode,
-                    {"stores": [(repr(c_[0])[:80], repr(c_[1])[:80]) for c_ in cells]}, [c_[0] for c_ in cells] + [c_[1] for c_ in cells])
-        ok = len(cells) == len(blocks) and not augs
-        ctx.check(ok, f"{tag}: nothing else is stored into the augmented matrix", znode, None if ok else len(cells))
-        ok = I.same_value(ca[1], A * h) and I.same_value(ca[2], F.const(order))
-        verdict(ctx, ok, f"{tag}: _expm_SS receives the augmented matrix, A h and the order", call.node, repr(ca[1:])[:200], ca[1:3])
-        outs = {"E": "EM[:n, :n]"}
-        if order == 1:
-            outs.update({"Q": "EM[:n, n + i:]", "P": "EM[:n, n:n + i] - EM[:n, n + i:]"})
-        else:
-            outs.update({"P": "EM[:n, n:]", "Q": "0.0"})
-        for nm, got in zip(("E", "P", "Q"), ret):
-            wv = it.expr(outs[nm], env)
-            ok = I.same_value(got, wv)
-            verdict(ctx, ok, f"{tag}: {nm} = {outs[nm]}", fn, repr(got)[:200], [got])
+                    dv = to_rat(dtype)
+                    inherits = not is_unknown(dv) and I.atoms_named(dv, "attr:dtype")
+                    p = fn_parts(dv) if isinstance(dv, F.Rat) else None
+                    promoted = p is not None and p[0] in ("call:np.result_type", "call:np.promote_types", "call:np.common_type") \
+                        and (p[0].endswith("common_type") or any(isinstance(x, F.Rat) and I.sym_name(x) in ("@float", "@np.float64", "@complex") for x in p[1]))
+                    if promoted:
+                        ctx.ok(f"{tag}: the augmented matrix is allocated with a dtype promoted with float", znode)
+                    elif inherits:
+                        ctx.fail(f"{tag}: the augmented matrix is allocated as a floating array, so it holds A h and B h whatever the dtypes of A, B, h", znode,
+                                 {"dtype": repr(dv)[:200], "why": "the dtype is inherited from an input: integer A and h give an integer array and B h is truncated when stored"})
+                    else:
+                        ctx.error(f"{tag}: dtype of the augmented matrix", znode, f"cannot decide whether {dv!r} is a floating dtype"[:200])
+            # blocks
+            env = {"A": A, "h": h, "B": B, "M": M, "EM": F.sym("EM"), "n": None, "i": None, "r": None}
+            env["n"] = it.expr("A.shape[0]", env)
+            if B_txt is not None:
+                env["B"] = it.expr(B_txt, env)          # the identity that stands for the missing input matrix
+            env["i"] = it.expr(i_txt, env)
+            env["r"] = it.expr("B.shape[0]", env)
+            want_shape = it.expr("(n + 2 * i, n + 2 * i)" if order == 1 else "(n + i, n + i)", env)
+            ok = I.same_value(shape, want_shape)
+            verdict(ctx, ok, f"{tag}: the augmented matrix is square of size n + {'2 i' if order else 'i'}", znode, repr(shape)[:200], [shape])
+            blocks = [("M[:n, :n]", "A * h", "A h in the leading block")]
+            if order == 1:
+                blocks += [("M[:r, n:n + i]", "B * h", "B h to the right of it"), ("M[n:n + i, n + i:]", "np.eye(i)", "the identity coupling u and du")]
+            else:
+                blocks += [("M[:r, n:]", "B * h", "B h to the right of it")]
+            cells = [(ix, v, st) for base, ix, v, st, aug in it.cells if I.same_value(base, M) and not aug]
+            augs = [st for base, ix, v, st, aug in it.cells if I.same_value(base, M) and aug]
+            for where_txt, val_txt, what in blocks:
+                wi = fn_parts(it.expr(where_txt, env))[1][1]
+                wv = it.expr(val_txt, env)
+                hit = [c_ for c_ in cells if I.same_value(c_[0], wi)]
+                ok = len(hit) == 1 and I.same_value(hit[0][1], wv)
+                verdict(ctx, ok, f"{tag}: {what} ({where_txt} = {val_txt})", hit[0][2] if hit else znode,
+                        {"stores": [(repr(c_[0])[:80], repr(c_[1])[:80]) for c_ in cells]}, [c_[0] for c_ in cells] + [c_[1] for c_ in cells])
+            ok = len(cells) == len(blocks) and not augs
+            ctx.check(ok, f"{tag}: nothing else is stored into the augmented matrix", znode, None if ok else len(cells))
+            ok = I.same_value(ca[1], A * h) and I.same_value(ca[2], F.const(order))
+            verdict(ctx, ok, f"{tag}: _expm_SS receives the augmented matrix, A h and the order", call.node, repr(ca[1:])[:200], ca[1:3])
+            outs = {"E": "EM[:n, :n]"}
+            if order == 1:
+                outs.update({"Q": "EM[:n, n + i:]", "P": "EM[:n, n:n + i] - EM[:n, n + i:]"})
+            else:
+                outs.update({"P": "EM[:n, n:]", "Q": "0.0"})
+            for nm, got in zip(("E", "P", "Q"), ret):
+                wv = it.expr(outs[nm], env)
+                ok = I.same_value(got, wv)
+                verdict(ctx, ok, f"{tag}: {nm} = {outs[nm]}", fn, repr(got)[:200], [got])
 
 
 RULES = [
     ("C07-R1", r1_pade_tables, 29),
-    ("C07-R2", r2_thresholds, 30),
-    ("C07-R3", r3_squaring, 18),
-    ("C07-R4", r4_siblings, 17),
+    ("C07-R2", r2_thresholds, 44),
+    ("C07-R3", r3_squaring, 22),
+    ("C07-R4", r4_siblings, 18),
     ("C07-R5", r5_ssmodel, 34),
-    ("C07-R6", r6_augmented, 19),
+    ("C07-R6", r6_augmented, 57),
 ]
 LEVEL = "other"
 EXPLANATION = ("Static: every Pade coefficient table in expmint.py (17 tables) is extracted under the scalar homomorphism A->x and checked, "
